@@ -32,6 +32,16 @@ def err_items(eng, st, v):
     return []
 
 
+def be16_of_buffer(eng, lin):
+    """lin == 256*buf[0] + buf[1] for one buffer (a length field read by indexing instead of through a reader)"""
+    es = getattr(eng, "elem_syms", {})
+    items = sorted(lin.t.items(), key=lambda kv: -kv[1])
+    if len(items) != 2 or lin.c != 0 or [v for _, v in items] != [256, 1]:
+        return False
+    a_, b_ = es.get(items[0][0]), es.get(items[1][0])
+    return bool(a_ and b_ and a_[0] == b_[0] and a_[1] == Lin.const(0) and b_[1] == Lin.const(1))
+
+
 def field0(e):
     fs = e.variants.get(e.vidx.c, ()) if e.vidx.is_const() else ()
     return fs[0] if fs else None
@@ -144,6 +154,9 @@ def run_config(chk, config):
                 continue
             vi, p = result_parts(pushes[-1][2])
             if vi != 1:
+                tp = [e for e in reads if e[1] == "reader.*"]
+                if len(tp) >= 3 and not eng.ent(b, c_eq(tp[2][3].lin, Lin.const(0))):
+                    info["bad"].append("a vendor-id fault is not reported (AVP accepted with a vendor id that may be non-zero)")
                 continue
             nm = tables.variant_name(eng, p)
             f0 = field0(p)
@@ -192,7 +205,8 @@ def run_config(chk, config):
                 okr += 1
                 reads = [x for x in s.events() if x[0] == "read"]
                 f0 = field0(e)
-                if not (isinstance(f0, VInt) and reads and f0.lin == reads[0][3].lin):
+                good = isinstance(f0, VInt) and ((reads and f0.lin == reads[0][3].lin) or be16_of_buffer(eng, f0.lin))
+                if not good:
                     badr.append("InvalidOriginalAVPLength does not carry the decrypted length")
     chk.oblig(okr >= 1 and not badr, "offending | AVP::reveal", "InvalidOriginalAVPLength: %s" % (badr[:1] or "unreachable"), {},
               {"obligation": "InvalidOriginalAVPLength carries the decrypted original length", "paths": okr})
